@@ -18,7 +18,8 @@ def name_of(cfg):
     return (f"{cfg['model']}/w{cfg['world']}/gwf={k['grad_worker_fraction']}"
             f"/F={k['factor_update_steps']}/I={k['inv_update_steps']}/"
             f"{K.method_of(cfg)}/damp={k['damping']}/decay="
-            f"{k['factor_decay']}")
+            f"{k['factor_decay']}/fdt={k.get('factor_dtype')}/col="
+            f"{k.get('colocate_factors', True)}")
 
 
 def hp_at(spec, step):
@@ -130,7 +131,13 @@ def case(part, item):
                     for nm, st in sv['layers'].items():
                         for fk in 'AG':
                             a, b = st[fk], ld['layers'][nm][fk]
-                            if (a is None) != (b is None) or (
+                            if a is not None and b is not None and \
+                                    a.dtype != b.dtype:
+                                vs.append(('restore-dtype', f'rank{r}: '
+                                           f'factor {nm}.{fk} saved as '
+                                           f'{a.dtype}, restored as '
+                                           f'{b.dtype}'))
+                            elif (a is None) != (b is None) or (
                                     a is not None and not torch.equal(a, b)):
                                 vs.append(('restore-factor', f'rank{r}: '
                                            f'factor {nm}.{fk} not restored '
@@ -273,6 +280,13 @@ def configs(thorough, seed):
                           compute_eigenvalue_outer_product=pre,
                           factor_update_steps=f, inv_update_steps=inv,
                           grad_worker_fraction=k / world, **hp)
+                # rotate factor dtype and (where the constructor allows it)
+                # non-co-located factors through the box
+                fdt = (None, 'f64', None, 'bf16')[i % 4]
+                if fdt:
+                    kk['factor_dtype'] = fdt
+                if not pre and k > 1 and i % 3 == 0:
+                    kk['colocate_factors'] = False
                 out.append({'model': model, 'dtype': 'f32', 'batch': 2,
                             'world': world, 'seed': seed, 'kfac': kk,
                             'ckpt_perturb': True})
